@@ -40,7 +40,9 @@ var polSpecs = []polSpec{
 	{"set_sum", pbsubstreams.Module_KindStore_UPDATE_POLICY_SET_SUM, []string{"int64", "float64", "bigint", "bigdecimal"}},
 }
 
-func isNumeric(pol string) bool { return pol == "add" || pol == "min" || pol == "max" || pol == "set_sum" }
+func isNumeric(pol string) bool {
+	return pol == "add" || pol == "min" || pol == "max" || pol == "set_sum"
+}
 
 // sop is one store operation of a block, in the abstract value domain of the specification.
 type sop struct {
